@@ -833,7 +833,40 @@ def judge_termination(ctx, case):
         ctx.mismatch(f'C20|undocumented-exc:{out}@{case["via"]}-malformed-format', case, case['terminates'])
 
 
+# ---- small reproducers of repaired defects that the random workload reaches only rarely (each must stay documented-exception-or-ok) ----
+def _regressions():
+    import io as _io
+    return {
+        'len(Array(Dtype(bits,0)))': lambda: len(Array(Dtype('bits', 0))),
+        'Array(Dtype(uint,0)).tolist()': lambda: Array(Dtype('uint', 0)).tolist(),
+        'Array(Dtype(ue))': lambda: Array(Dtype('ue'), [1]).tolist(),
+        'Array(auto-scale, [inf])': lambda: Array(Dtype('e4m3mxfp', scale='auto'), [float('inf'), 1.0]),
+        'Array(auto-scale, [nan])': lambda: Array(Dtype('e5m2mxfp', scale='auto'), [float('nan')]),
+        'Bits(BufferedReader(BytesIO))': lambda: Bits(_io.BufferedReader(_io.BytesIO(b'ab'))).hex,
+        'ConstBitStream(BufferedReader(BytesIO))': lambda: ConstBitStream(_io.BufferedReader(_io.BytesIO(b''))).pos,
+        "pp(pad8, sep='')": lambda: Bits(16).pp('pad8', sep='', stream=_io.StringIO()),
+        "pp(pad3, pad3, sep='')": lambda: Bits(12).pp('pad3, pad3', sep='', stream=_io.StringIO()),
+        'Bits() == 10**5000': lambda: (Bits() == 10 ** 5000, Bits('0b1') != -10 ** 6000),
+        'BitArray(10**5000 as auto in +)': lambda: BitArray('0b1') + 10 ** 5000,
+        's >> True': lambda: (Bits('0b1010') >> True, Bits('0b1010') << True, BitArray('0b1010').__irshift__(True)),
+    }
+
+
+def judge_regressions(ctx):
+    for name, f in _regressions().items():
+        with util.options(lsb0=False):
+            kind, val = call(f)
+        ctx.op('regression:' + name, 'ok' if kind == 'ok' else type(val).__name__)
+        oc = outcome_class(kind, val, name)
+        if oc:
+            ctx.mismatch(f'C20|{oc}', {'regression': name}, f'{name} -> {type(val).__name__}: {val!s:.100}')
+        else:
+            ctx.ok(('regression', name), True)
+
+
 def run(ctx):
+    if ctx.shard == 2 % ctx.nshards:
+        judge_regressions(ctx)
     if ctx.shard == 1 % ctx.nshards:
         for f in TERMINATION_FORMATS:
             for via in TERMINATION_ENTRIES:
@@ -877,7 +910,9 @@ REQUIRED_OPS = required_ops()
 
 
 def replay(ctx, case):
-    if 'terminates' in case:
+    if 'regression' in case:
+        judge_regressions(ctx)
+    elif 'terminates' in case:
         judge_termination(ctx, case)
     elif 'option' in case:
         ctx.run_case(judge_option, case)
